@@ -58,6 +58,10 @@ func NewMaskedTransformProtocol(paramsIn, paramsOut bgv.Parameters, noiseFloodin
 		return MaskedTransformProtocol{}, fmt.Errorf("newMaskedTransformProtocol: paramsIn.N() != paramsOut.N()")
 	}
 
+	if paramsIn.PlaintextModulus() != paramsOut.PlaintextModulus() {
+		return MaskedTransformProtocol{}, fmt.Errorf("newMaskedTransformProtocol: paramsIn.PlaintextModulus() != paramsOut.PlaintextModulus()")
+	}
+
 	rfp = MaskedTransformProtocol{}
 	if rfp.e2s, err = NewEncToShareProtocol(paramsIn, noiseFlooding); err != nil {
 		return
